@@ -18,9 +18,13 @@ import (
 // allocation has no identity ("") and the rules that need one stay undecided.
 
 // CellID returns the identity of the cell that addr points to.
-func (p *Prog) CellID(addr ssa.Value) string { return p.cellID(addr, 0) }
+func (p *Prog) CellID(addr ssa.Value) string { return p.cellID(addr, 0, nil) }
 
-func (p *Prog) cellID(addr ssa.Value, d int) string {
+// CellIDCtx is CellID for an address computed inside transparent helpers
+// entered through the given chain of calls.
+func (p *Prog) CellIDCtx(addr ssa.Value, stack []*ssa.Call) string { return p.cellID(addr, 0, stack) }
+
+func (p *Prog) cellID(addr ssa.Value, d int, stack []*ssa.Call) string {
 	if addr == nil || d > 8 {
 		return ""
 	}
@@ -32,15 +36,24 @@ func (p *Prog) cellID(addr ssa.Value, d int) string {
 			return allocID(r)
 		}
 	case *ssa.FieldAddr:
-		if base := p.objID(a.X, d+1); base != "" {
+		if base := p.objID(a.X, d+1, stack); base != "" {
 			return base + "." + CanonFieldName(a.X.Type(), a.Field)
 		}
 	case *ssa.Parameter:
-		if rs := ResolveAll(a); len(rs) == 1 && rs[0] != ssa.Value(a) {
-			return p.cellID(rs[0], d+1)
+		if rs := ResolveAllCtx(a, stack); len(rs) == 1 && rs[0] != ssa.Value(a) {
+			return p.cellID(rs[0], d+1, callerStack(a, stack))
 		}
 	}
 	return ""
+}
+
+// callerStack: the chain of calls that remains once a parameter of the
+// innermost helper has been replaced by the argument at its call.
+func callerStack(q *ssa.Parameter, stack []*ssa.Call) []*ssa.Call {
+	if n := len(stack); n > 0 && EffCallee(stack[n-1]) == q.Parent() {
+		return stack[:n-1]
+	}
+	return nil
 }
 
 func allocID(a *ssa.Alloc) string {
@@ -52,7 +65,7 @@ func allocID(a *ssa.Alloc) string {
 }
 
 // objID identifies the object a pointer value points to.
-func (p *Prog) objID(v ssa.Value, d int) string {
+func (p *Prog) objID(v ssa.Value, d int, stack []*ssa.Call) string {
 	if v == nil || d > 8 {
 		return ""
 	}
@@ -64,9 +77,12 @@ func (p *Prog) objID(v ssa.Value, d int) string {
 			return allocID(r)
 		}
 	case *ssa.Parameter:
-		if rs := ResolveAll(x); len(rs) == 1 && rs[0] != ssa.Value(x) {
-			return p.objID(rs[0], d+1)
+		if rs := ResolveAllCtx(x, stack); len(rs) == 1 && rs[0] != ssa.Value(x) {
+			return p.objID(rs[0], d+1, callerStack(x, stack))
 		}
+	case *ssa.FieldAddr:
+		// the address of a struct embedded by value (`&d.lower`): the object is that field
+		return p.cellID(x, d+1, stack)
 	case *ssa.UnOp:
 		if x.Op != token.MUL {
 			return ""
@@ -82,13 +98,13 @@ func (p *Prog) objID(v ssa.Value, d int) string {
 		}
 		if root != nil {
 			if sts := p.allocStores(root); len(sts) == 1 {
-				if id := p.objID(sts[0].Val, d+1); id != "" {
+				if id := p.objID(sts[0].Val, d+1, nil); id != "" {
 					return id
 				}
 			}
 			return "*" + allocID(root)
 		}
-		if id := p.cellID(x.X, d+1); id != "" {
+		if id := p.cellID(x.X, d+1, stack); id != "" {
 			return "*" + id
 		}
 	}
@@ -157,7 +173,7 @@ func (p *Prog) LoadedCell(v ssa.Value) string {
 
 // ObjID identifies the object a pointer value points to ("" when it cannot
 // be traced to one allocation).
-func (p *Prog) ObjID(v ssa.Value) string { return p.objID(v, 0) }
+func (p *Prog) ObjID(v ssa.Value) string { return p.objID(v, 0, nil) }
 
 // stripConv removes type conversions only (no look through helpers: a cell
 // is identified by where it is, not by what it holds).
